@@ -9,6 +9,7 @@ import Vivid.Engine.SysFSM
 import Vivid.Engine.Future
 import Vivid.Engine.Framing
 import Vivid.Engine.SendLoop
+import Vivid.Engine.Transparency
 
 open Vivid.Engine
 
@@ -22,7 +23,8 @@ def engines : List (String × Engine) := [
   ("sysfsm", SysFSMEngine.engine),
   ("future", FutureEngine.engine),
   ("framing", FramingEngine.engine),
-  ("sendloop", SendLoopEngine.engine)
+  ("sendloop", SendLoopEngine.engine),
+  ("transp", TranspEngine.engine)
 ]
 
 partial def loop (h : IO.FS.Stream) (out : IO.FS.Stream) (e : Engine) (s : e.σ) : IO Unit := do
